@@ -209,14 +209,37 @@ def run(ctx):
     rets = [n for n in walk_no_nested(rt.node) if isinstance(n, ast.Return)]
     from ..pat import match_expr as _me, find_stmt as _fs
     got = {}
+    rta = FA(rt)
+    inl_rt = single_assignments(rt.node)
+
+    def _pairwise(e_):
+        """e_ is [<test of c against t> for ... in zip(..self.criterion.., ..self.tolerance..)] - every criterion is
+        compared with its own tolerance (the direction per criterion is decided under C20.3)"""
+        if isinstance(e_, ast.Name) and e_.id in inl_rt:
+            e_ = inl_rt[e_.id]
+        if not (isinstance(e_, (ast.ListComp, ast.GeneratorExp)) and len(e_.generators) == 1):
+            return False
+        gen_ = e_.generators[0]
+        if not (isinstance(gen_.iter, ast.Call) and src(gen_.iter.func) == "zip" and isinstance(gen_.target, ast.Tuple) and not gen_.ifs):
+            return False
+        srcs_ = [src(a_) for a_ in gen_.iter.args]
+        tv_ = [x_.id if isinstance(x_, ast.Name) else None for x_ in gen_.target.elts]
+        if "self.criterion" not in srcs_ or "self.tolerance" not in srcs_ or len(tv_) != len(srcs_):
+            return False
+        cv_, tl_ = tv_[srcs_.index("self.criterion")], tv_[srcs_.index("self.tolerance")]
+        cmps_ = [n_ for n_ in ast.walk(e_.elt) if isinstance(n_, ast.Compare)]
+        pair_ = [n_ for n_ in cmps_ if len(n_.ops) == 1 and isinstance(n_.ops[0], (ast.Lt, ast.LtE, ast.Gt, ast.GtE)) and {src(n_.left), src(n_.comparators[0])} == {cv_, tl_}]
+        # "meets" is non-strict: a criterion exactly at its tolerance stops the run (the default tolerance is 0.0)
+        return bool(pair_) and len(pair_) == len(cmps_) - sum(1 for n_ in cmps_ if isinstance(n_.ops[0], (ast.Eq, ast.NotEq, ast.In, ast.NotIn))) and all(isinstance(n_.ops[0], (ast.LtE, ast.GtE)) for n_ in pair_) and isinstance(e_.elt, (ast.Compare, ast.IfExp))
+
     for r in rets:
-        facts = [(canon(e), t) for e, t in guard_facts(FA(rt), FA(rt).cfg.id_of(r))]
-        for kind in ("any", "all"):
-            if _me(kind + "([$$c <= $$t for $$c, $$t in zip(self.criterion, self.tolerance)])", r.value) is not None:
-                got[kind] = facts
+        facts = [(canon(e), t) for e, t in guard_facts(rta, rta.cfg.id_of(r))]
+        v_ = r.value
+        if isinstance(v_, ast.Call) and isinstance(v_.func, ast.Name) and v_.func.id in ("any", "all") and len(v_.args) == 1 and _pairwise(v_.args[0]):
+            got[v_.func.id] = facts
     want_any, want_all = "any", "all"
     ok_rt = want_any in got and ("self._stop_any", True) in got[want_any] and want_all in got and ("self._stop_any", False) in got[want_all] and len(rets) == 2
-    ctx.ob("R-SIB", "C15.1", rt, "criteria meet their tolerances (c <= t pairwise) combined by any iff check_criteria == 'any', else all", ok_rt, f"{list(got)}")
+    ctx.ob("R-SIB", "C15.1", rt, "criteria meet their tolerances (each compared with its own tolerance, pairwise) combined by any iff check_criteria == 'any', else all", ok_rt, f"{list(got)}")
     conf = ctx.fn(INS + ".configure_stopping_criterion")
     sa_ = ifs_on(conf.node, "check_criteria == 'any'")
     stores_ = [n for n in walk_no_nested(conf.node) if isinstance(n, ast.Assign) and src(n.targets[0]) == "self._stop_any"]
